@@ -1665,12 +1665,13 @@ PROTO_WORDS = ["message", "enum", "package", "syntax", "repeated", "oneof", "imp
 
 GEN_MODULE_NAMES = ["Simple", "Fleet-Module", "FleetModule", "My-Module-Defs", "ITS-Container", "CAM-PDU-Descriptions",
                     "ISO-8859", "X-509", "A", "Ab-Cd-Ef", "Abc2", "Abc-2x", "My-Mod3-X", "UPPER", "UPPER-Case", "Camel-CaseName",
-                    "Ends-With-", "PKIX1Explicit88", "Mod-a-b", "Package", "Message", "Syntax"]
+                    "Ends-With-", "PKIX1Explicit88", "Mod-a-b", "Package", "Message", "Syntax", "Module"]
 
 GEN_OIDS = ["", "{ iso(1) standard(0) 4711 }", "{ itu-t(0) identified-organization(4) etsi(0) its(5) }", "{ 1 2 3 }",
             "{ iso standard 8859 }", "{ joint-iso-itu-t(2) ds(5) module(1) x-509(7) 2nd(2) }", "{ iso(1) package(2) message(3) }"]
 
 GEN_CLASSES = [
+    (r"Expected identifier\. \[`package ;`\]", "proto.package_empty"),
     (r"Fields in oneofs must not have labels", "proto.schema_repeated_in_oneof"),
     (r"repeated repeated|Missing field number|Expected \"=\"", "proto.schema_repeated_repeated"),
 ]
@@ -1791,3 +1792,266 @@ class ProtoGen(ProtoBase):
 
     def nontrivial(self, req, ans):
         return ans.startswith("ok")
+
+
+# ------------------------------------------------------------- C18: the `package` line and the file name
+
+PKG_ALPHABET = "ABCDEFGHIJKLMNOPQRSTUVWXYZabcdefghijklmnopqrstuvwxyz0123456789-_"
+PKG_IDENT = re.compile(r"^[A-Za-z_][A-Za-z0-9_]*$")
+PKG_SUFFIXES = ["", "Module", "_Module", "-Module", "Module_Module", "_ModuleModule", "ModuleModule", "module", "MODULE",
+                "-", "_", "-2", "_2", "2"]
+PKG_STEMS = ["", "A", "a", "Ab", "AB", "ABc", "ABC", "aB", "aBC", "aBc", "A-B", "A-b", "a-B", "A-1", "A1", "1A", "1a", "A-1b",
+             "A--B", "A_B", "A__B", "A-_B", "_A", "-A", "_a", "-a", "A-", "A_", "-", "_", "--", "__", "-_", "_-", "0", "007",
+             "X-509", "ISO-8859", "UPPER", "UPPERCase", "UPPER-Case", "camelCase", "Camel-CaseName", "Rnd-Mod-2", "RndMod",
+             "Fleet", "My-Module-Defs", "ModuleX", "Module-X", "Module", "PKIX1Explicit88", "Mod-a-b", "Z9-9Z", "a1B2c3",
+             "ITS-Container", "CAM-PDU-Descriptions", "Ends-With-", "Package", "Message", "Syntax", "X", "x", "I", "IO", "IoT"]
+# characters the tokenizer puts into a text token as well (ASCII): never part of an X.680 name
+PKG_WIDE = "!#$%&*+/<>?@\\^`|~"
+PKG_OID_NAMES = ["iso", "standard", "itu-t", "joint-iso-itu-t", "identified-organization", "x-509", "2nd", "-a", "_a", "a-",
+                 "a_", "A", "FooBar", "fooBar", "ABc", "a--b", "a_b", "a-B", "package", "message", "x1", "1x", "-", "_", "0a"]
+PKG_OID_NUMBERS = [0, 1, 2, 7, 9, 10, 88, 4711, 8859, 65535, 4294967295, 4294967296, (1 << 63), (1 << 64) - 1]
+
+
+def pkg_nice(name):
+    """`make_name_nice` (asn/model.rs): one trailing `_Module`, then one trailing `Module`"""
+    for suffix in ("_Module", "Module"):
+        if name.endswith(suffix):
+            name = name[:len(name) - len(suffix)]
+    return name
+
+
+def pkg_oid_of_text(text):
+    """`{ iso(1) standard(0) 4711 }` -> oid token of the `package` ops (classification of `read_oid`)"""
+    inner = text.strip()
+    if not inner:
+        return "-"
+    parts = inner.strip("{} ").split()
+    if not parts:
+        return "empty"
+    out = []
+    for p in parts:
+        m = re.match(r"^([^()]+)\((\d+)\)$", p)
+        if m:
+            out.append(f"nn:{vlib.hexs(m.group(1).encode())}:{m.group(2)}")
+        elif p.isdigit():
+            out.append(f"u:{p}")
+        else:
+            out.append(f"n:{vlib.hexs(p.encode())}")
+    return ",".join(out)
+
+
+def pkg_parse_oid(token):
+    """oid token -> None | list of ("n", name) / ("nn", name, k) / ("u", k)"""
+    if token == "-":
+        return None
+    if token == "empty":
+        return []
+    out = []
+    for part in token.split(","):
+        f = part.split(":")
+        if f[0] == "u":
+            out.append(("u", int(f[1])))
+        else:
+            out.append((f[0], unhex(f[1]).decode()) + ((int(f[2]),) if f[0] == "nn" else ()))
+    return out
+
+
+class ProtoPackage(ProtoBase):
+    """C18, the `package` line and the file name of a generated .proto file: `proto package` asks the pipeline of
+    `Converter::to_protobuf` (make_names_nice, to_rust, to_protobuf, generate_file) for a module of that name,
+    `proto package-fn` the functions `model_to_package` / `model_file_name` on the argument as it is, `proto istoken`
+    the real tokenizer whether a text is one text token (model: `TokenText`).  The model is Proto/Package.lean (exact
+    equality); the oracle is the statement of Props/C18Pkg.lean (package_valid, oid_package_valid, file_name_shape,
+    alphabet_is_one_token) decided in Python on the implementation's answer.  It never demands a defect: an empty
+    package is accepted where the theorem allows it, names outside the alphabet are compared only."""
+    name = "proto-package"
+
+    def prepare(self, harness, driver):
+        self.h = harness
+        self.d = driver
+
+    @staticmethod
+    def req(op, name, oid="-"):
+        return f"proto {op} {vlib.hexs(name.encode())} {oid}"
+
+    @staticmethod
+    def rnd_name(r, alphabet=PKG_ALPHABET):
+        kind = r.below(6)
+        n = r.range(1, 3) if kind == 0 else r.range(1, 14)
+        if kind == 1:      # words separated by hyphens / underscores, as real module names are
+            words = []
+            for _ in range(r.range(1, 4)):
+                w = "".join(r.choice("ABCDEFGHIJKLMNOPQRSTUVWXYZ") if r.chance(1, 3) else r.choice("abcdefghijklmnopqrstuvwxyz0123456789")
+                            for _ in range(r.range(1, 5)))
+                words.append(w)
+            s = r.choice(["-", "_", "-", "--", "-_"]).join(words)
+        elif kind == 2:    # few symbols: long runs of capitals, digits and separators
+            s = "".join(r.choice("AAb1-_") for _ in range(n))
+        else:
+            s = "".join(r.choice(alphabet) for _ in range(n))
+        if r.chance(1, 3):
+            s += r.choice(PKG_SUFFIXES)
+        return s
+
+    @staticmethod
+    def rnd_oid(r):
+        k = r.below(8)
+        if k == 0:
+            return "empty"
+        parts = []
+        for _ in range(r.range(1, 5)):
+            form = r.below(3)
+            nm = r.choice(PKG_OID_NAMES) if r.chance(1, 2) else ProtoPackage.rnd_name(r)
+            num = r.choice(PKG_OID_NUMBERS) if r.chance(1, 2) else r.below(1 << r.range(1, 64))
+            if form == 0:
+                parts.append(f"n:{vlib.hexs(nm.encode())}")
+            elif form == 1:
+                parts.append(f"nn:{vlib.hexs(nm.encode())}:{num}")
+            else:
+                parts.append(f"u:{num}")
+        return ",".join(parts)
+
+    def gen(self, rng, tier):
+        reqs = []
+        ops = ("package", "package-fn")
+        # 1. corpus: every stem x every suffix, the pools of proto-gen
+        names = list(GEN_MODULE_NAMES)
+        names += [s + x for s in PKG_STEMS for x in PKG_SUFFIXES]
+        oids = [pkg_oid_of_text(t) for t in GEN_OIDS] + ["empty"]
+        for n in names:
+            for op in ops:
+                reqs.append(self.req(op, n))
+        for n in GEN_MODULE_NAMES + ["Oid-Mod", "Module", "-", ""]:
+            for o in oids:
+                reqs.append(self.req("package", n, o))
+        # 2. exhaustive: every text of at most 4 (thorough: 5) symbols of {A, b, 1, -, _}
+        small = [""]
+        layer = [""]
+        for _ in range(4 if tier == "quick" else 5):
+            layer = [w + c for w in layer for c in "Ab1-_"]
+            small += layer
+        for n in small:
+            reqs.append(self.req("package-fn", n))
+        for n in small[:156]:
+            reqs.append(self.req("package", n))
+            reqs.append(self.req("package", n + "Module"))
+        # 3. object identifier components: every boundary name in both name forms, every boundary number
+        for nm in PKG_OID_NAMES + PKG_STEMS:
+            if nm:
+                reqs.append(self.req("package-fn", "X", f"n:{vlib.hexs(nm.encode())}"))
+                reqs.append(self.req("package-fn", "X", f"nn:{vlib.hexs(nm.encode())}:7"))
+        for k in PKG_OID_NUMBERS:
+            reqs.append(self.req("package-fn", "X", f"u:{k}"))
+        for n in small[:156]:
+            if n:
+                reqs.append(self.req("package-fn", "X", f"n:{vlib.hexs(n.encode())},u:1"))
+        # 4. text-token characters outside the alphabet (correspondence, and the alphabet hypothesis is sharp)
+        for c in PKG_WIDE:
+            for n in (c, "A" + c + "B", "a" + c, c + "1", "A-" + c + "Module"):
+                reqs.append(self.req("package-fn", n))
+                reqs.append(self.req("package", n))
+            reqs.append(self.req("package-fn", "X", f"n:{vlib.hexs(('a' + c).encode())}"))
+        # 5. the tokenizer: which texts are ONE text token (predicate TokenText of the model; real Tokenizer::parse)
+        printable = [chr(c) for c in range(0x20, 0x7f)]
+        special = list(":;=(){}.,[]'\"") + ["-", "/", "*", "A", " ", "_"]
+        texts = printable + [a + b for a in special for b in special]
+        layer = [""]
+        for _ in range(4):
+            layer = [w + c for w in layer for c in "-/*A"]
+            texts += layer
+        texts += names[:400] + [c + "A" for c in printable] + ["A" + c for c in printable] + ["A" + c + "B" for c in printable]
+        r = rng.fork("tokens")
+        for i in range(300 if tier == "quick" else 6000):
+            texts.append("".join(r.choice(printable) if r.chance(1, 4) else r.choice(PKG_ALPHABET + "/*")
+                                 for _ in range(r.range(1, 10))))
+        for t in texts:
+            if t:
+                reqs.append(f"proto istoken {vlib.hexs(t.encode())}")
+        # 6. random
+        r = rng.fork("names")
+        k = 2400 if tier == "quick" else 32000
+        for i in range(k):
+            n = self.rnd_name(r)
+            reqs.append(self.req(ops[i % 2], n))
+        r = rng.fork("oids")
+        for i in range(k // 4):
+            reqs.append(self.req(ops[i % 2], self.rnd_name(r), self.rnd_oid(r)))
+        r = rng.fork("wide")
+        for i in range(k // 16):
+            reqs.append(self.req(ops[i % 2], self.rnd_name(r, PKG_ALPHABET + PKG_WIDE)))
+        return reqs
+
+    @staticmethod
+    def parts(req, ans):
+        f = req.split(" ")
+        a = ans.split(" ")
+        if f[1] == "istoken":
+            return f[1], unhex(f[2]).decode(), None, a[1], ""
+        name = unhex(f[2]).decode()
+        oid = pkg_parse_oid(f[3])
+        return f[1], name, oid, unhex(a[1]).decode("utf-8", "replace"), unhex(a[2]).decode("utf-8", "replace")
+
+    @staticmethod
+    def in_alphabet(s):
+        return all(c in PKG_ALPHABET for c in s)
+
+    def oracle(self, req, ans):
+        if ans in ("panic", "abort", "hang"):
+            return "the generator panics"
+        if not ans.startswith("ok "):
+            return f"unexpected answer `{ans}`"
+        op, name, oid, package, file = self.parts(req, ans)
+        if op == "istoken":
+            # theorem alphabet_is_one_token: the names the statement speaks about do reach the generator
+            if name and self.in_alphabet(name) and "--" not in name and package != "1":
+                return f"`{name}` is not delivered as one text token"
+            return None
+        # what reaches the functions: `make_name_nice` is applied by the parser (op `package` only); the Rust-side
+        # mangling in between changes no letter or digit into something else and nothing else into one
+        seen = pkg_nice(name) if op == "package" else name
+        comps = package.split(".") if package else []
+        if oid is None:
+            if self.in_alphabet(name):
+                # empty ONLY in the characterised case (a repair that invents a name there is welcome);
+                # otherwise: identifiers
+                if package == "" and any(c.isalnum() for c in seen):
+                    return f"package of `{name}` is empty although a letter or digit is left of the name (`{seen}`)"
+                for c in comps:
+                    if not PKG_IDENT.match(c):
+                        return f"package `{package}` of `{name}`: component `{c}` is not an identifier"
+            # names with other characters: outside the statement (theorem package_line_valid_iff says the
+            # package is then NOT a fullIdent; the oracle does not demand a defect), correspondence only
+        else:
+            good = all(e[0] == "u" or (e[1] != "" and self.in_alphabet(e[1])) for e in oid)
+            if good and oid:
+                if len(comps) != len(oid):
+                    return f"package `{package}`: {len(comps)} components for {len(oid)} object identifier components"
+                for c in comps:
+                    if not PKG_IDENT.match(c):
+                        return f"package `{package}`: component `{c}` is not an identifier"
+                for c, e in zip(comps, oid):
+                    if e[0] == "u" and str(e[1]) not in c:
+                        return f"package `{package}`: component `{c}` for the number {e[1]}"
+        if self.in_alphabet(name):
+            if not file.endswith(".proto") or "/" in file:
+                return f"file name `{file}` of `{name}`"
+        elif not file.endswith(".proto"):
+            return f"file name `{file}` of `{name}`"
+        return None
+
+    def tag(self, req, ans):
+        if not ans.startswith("ok "):
+            return req.split(" ")[1] + ":" + ans.split(" ")[0]
+        op, name, oid, package, file = self.parts(req, ans)
+        if op == "istoken":
+            return f"istoken:{'alpha' if self.in_alphabet(name) else 'wide'}:{package}"
+        kind = "noid" if oid is None else ("oid0" if not oid else "oid")
+        alpha = "alpha" if self.in_alphabet(name) else "wide"
+        comps = package.split(".") if package else []
+        shape = "empty" if not comps else ("n%d" % min(len(comps), 4)) + ("+underscore" if any(c.startswith("_") for c in comps) else "")
+        if comps and not all(PKG_IDENT.match(c) for c in comps):
+            shape += "+invalid"
+        return f"{op}:{kind}:{alpha}:{shape}"
+
+    def nontrivial(self, req, ans):
+        return ans.startswith("ok ") and ans.split(" ")[1] not in ("-", "0")
